@@ -29,6 +29,8 @@ type Input struct {
 type Violation struct {
 	Label   string            `json:"label"`
 	Site    string            `json:"site"`
+	SiteFn  string            `json:"site_fn"`
+	SiteSrc string            `json:"site_src"`
 	Where   string            `json:"where"`
 	Kind    string            `json:"kind"` // assert | panic | alloc
 	Msg     string            `json:"msg,omitempty"`
@@ -373,9 +375,9 @@ func (p *Path) Check(c *sym.Term, label string, fr *frame) {
 		} else {
 			m = p.lastModel
 		}
-		site, _ := fr.repoSite()
+		site, sfn := fr.repoSite()
 		p.violations = append(p.violations, Violation{
-			Label: label, Site: site, Where: fr.where(), Kind: "assert",
+			Label: label, Site: site, SiteFn: sfn, SiteSrc: p.eng.srcLine(site), Where: fr.where(), Kind: "assert",
 			Inputs: p.concreteInputs(m), Path: append([]int64{}, p.decisions...),
 			Trace: append([]string{}, p.trace...),
 		})
@@ -396,9 +398,9 @@ func (p *Path) symbolicAlloc(fr *frame, t *sym.Term) int {
 		limit = int64(b)
 	}
 	if !p.replaying() && p.feasible(sym.SLt(mkInt(limit), t)) {
-		site, _ := fr.repoSite()
+		site, sfn := fr.repoSite()
 		p.violations = append(p.violations, Violation{
-			Label: "alloc-sized-by-input", Site: site, Where: fr.where(), Kind: "alloc",
+			Label: "alloc-sized-by-input", Site: site, SiteFn: sfn, SiteSrc: p.eng.srcLine(site), Where: fr.where(), Kind: "alloc",
 			Msg:    fmt.Sprintf("allocation size can exceed %d elements", limit),
 			Inputs: p.concreteInputs(p.lastModel), Path: append([]int64{}, p.decisions...),
 		})
@@ -696,7 +698,7 @@ func (ex *Explorer) runPath(sol, sol2 *solver.Solver, prefix []int64) (res PathR
 				}
 				if m != nil {
 					res.Violations = append(res.Violations, Violation{
-						Label: "no-panic", Site: last.Site, Where: last.Where, Kind: "panic", Msg: last.Msg + " :: " + res.Reason,
+						Label: "no-panic", Site: last.Site, SiteFn: last.Fn, SiteSrc: p.eng.srcLine(last.Site), Where: last.Where, Kind: "panic", Msg: last.Msg + " :: " + res.Reason,
 						Inputs: p.concreteInputs(m), Path: append([]int64{}, p.decisions...), Trace: p.trace,
 						Details: map[string]string{"fn": last.Fn},
 					})
